@@ -49,6 +49,8 @@ CB1, DFSTRUCT, BACKSHIFT = "cb1", "dfstruct", "backshiftguard"
 BUF, VSVAL = "buffer", "vsval"     # a freshly obtained buffer (its slots); a `RawVec` / `Vec` value under construction     # kinds whose threaded state is the vector model: `Vec` methods, and methods of its iterator structs
 BD, DRAIN, ITER2 = "bound", "drainstruct", "sliceiter"
 SLICE, CB2 = "slice", "cb2"   # a sub-slice of the vector's buffer (first slot, length); a two-argument predicate (call log as data)
+XSLICE = "xslice"         # a slice outside the vector's buffer (`&[T]`, `*const [T]`): its slots
+XPTR = "xptr"             # pointer to the first element of such a slice
 EXTW = "extendwith"      # `impl ExtendWith<T>`: the one implementor, `ExtendElement(value)`, is the value it clones
 
 
@@ -84,6 +86,7 @@ def lean_ty(t):
     if t == GUARD: return "Nat"
     if t == EXTW: return "V.Elem"
     if t == SLICE: return "(Nat × Nat)"
+    if t == XSLICE: return "(List (Option V.Elem))"
     if t == CB2: return "(Nat → V.Elem → V.Elem → Option Bool)"
     if t == BUF: return "(List (Option V.Elem))"
     if t == VSVAL: return "V.VS"
@@ -256,6 +259,9 @@ FUNCS += [
     Fn("dedup_by", "vec", "st", file=VEC_RS, group="Vec", anchor=VEC_IMPL, lean="vec_dedup_by", ptypes={"same_bucket": CB2}),
     Fn("resize", "vec", "st", file=VEC_RS, group="Vec", lean="vec_resize"),
     Fn("clear", "vec", "st", file=VEC_RS, group="Vec", anchor=VEC_IMPL, lean="vec_clear"),
+    Fn("append_elements", "vec", "st", file=VEC_RS, group="VecCopy", anchor=VEC_IMPL, lean="vec_append_elements", ptypes={"other": "xslice"}),
+    Fn("extend_from_slice_copy_unchecked", "vec", "st", file=VEC_RS, group="VecCopy", lean="vec_extend_from_slice_copy_unchecked", ptypes={"other": "xslice"}),
+    Fn("extend_from_slice_copy", "vec", "st", file=VEC_RS, group="VecCopy", lean="vec_extend_from_slice_copy", ptypes={"other": "xslice"}),
 ]
 DRAIN_FIELDS = [("tail_start", "usize"), ("tail_len", "usize"), ("iter", "slice::Iter<'a,T>")]
 FUNCS += [
@@ -763,6 +769,10 @@ class Tr:
                 return f"(0, {self.sv}.1.len)", SLICE
             if ty == SLICE and name == "len" and not args:
                 return f"{paren(t)}.2", NAT
+            if ty == XSLICE and name == "len" and not args:
+                return f"{paren(t)}.length", NAT
+            if ty == XSLICE and name == "as_ptr" and not args:
+                return t, XSLICE      # the pointer to its first element stands for the slice
             if ty == SLICE and name in ("as_ptr", "as_mut_ptr") and not args:
                 return f"{paren(t)}.1", SLOT
             if ty == VECSELF and name in ("as_ptr", "as_mut_ptr") and not args:
@@ -1380,6 +1390,9 @@ class Tr:
                         f"| some {ln} =>\n{inner})")
             if self.fn.kind in VECK and segs[-2:] == ["ptr", "copy"] and len(pa) == 3 and pa[0][1] == SLOT and pa[1][1] == SLOT:
                 return self.bind_call(f"RsM.copy c {sp(pa)}", "st", k, env_, UNIT, nopanic=True)
+            if self.fn.kind in VECK and segs[-2:] == ["ptr", "copy_nonoverlapping"] and len(pa) == 3 and pa[0][1] == XSLICE and pa[1][1] == SLOT:
+                # from a slice outside the buffer (the caller guarantees it does not overlap the destination)
+                return self.bind_call(f"RsM.copy_in c {sp(pa)}", "st", k, env_, UNIT, nopanic=True)
             if self.fn.kind in VECK and segs[-2:] == ["ptr", "copy_nonoverlapping"] and len(pa) == 3 and pa[0][1] == SLOT and pa[1][1] == SLOT:
                 return self.bind_call(f"RsM.copy_nonoverlapping c {sp(pa)}", "st", k, env_, UNIT, nopanic=True)
             if self.fn.kind in VECK and segs[-2:] == ["ptr", "drop_in_place"] and len(pa) == 1 and pa[0][1] == SLOT:
@@ -2376,8 +2389,8 @@ def translate_all(repo):
 
 
 GROUP_IMPORTS = {"Arith": [], "Details": ["Arith"], "Bytes": ["Arith"], "Limit": ["Arith", "Bytes"], "Footer": ["Arith"], "Fast": ["Arith", "Footer"],
-                 "Realloc": ["Arith", "Fast", "Footer", "Limit"], "RawVec": [], "Vec": ["RawVec"], "VecDrain": ["RawVec", "Vec"], "VecIntoIter": ["RawVec", "Vec"], "VecFilter": ["RawVec", "Vec"], "Glue": ["Arith", "Fast", "Footer", "Limit", "Realloc"], "Reset": ["Arith", "Footer"], "Rewind": ["Arith", "Footer", "Limit", "Fast", "Realloc"], "NewChunk": ["Arith"], "Iter": ["Arith", "Footer"], "Ctor": ["Arith", "Details", "NewChunk"], "Slow": ["Arith", "Details", "Bytes", "Limit", "Footer", "Fast", "NewChunk"]}
-GROUP_PRELUDE = {"RawVec": "BumpVerif.Model.RsVec", "Vec": "BumpVerif.Model.RsVecM", "VecDrain": "BumpVerif.Model.RsVecM", "VecIntoIter": "BumpVerif.Model.RsVecM", "VecFilter": "BumpVerif.Model.RsVecM"}
+                 "Realloc": ["Arith", "Fast", "Footer", "Limit"], "RawVec": [], "Vec": ["RawVec"], "VecDrain": ["RawVec", "Vec"], "VecIntoIter": ["RawVec", "Vec"], "VecFilter": ["RawVec", "Vec"], "VecCopy": ["RawVec", "Vec"], "Glue": ["Arith", "Fast", "Footer", "Limit", "Realloc"], "Reset": ["Arith", "Footer"], "Rewind": ["Arith", "Footer", "Limit", "Fast", "Realloc"], "NewChunk": ["Arith"], "Iter": ["Arith", "Footer"], "Ctor": ["Arith", "Details", "NewChunk"], "Slow": ["Arith", "Details", "Bytes", "Limit", "Footer", "Fast", "NewChunk"]}
+GROUP_PRELUDE = {"RawVec": "BumpVerif.Model.RsVec", "Vec": "BumpVerif.Model.RsVecM", "VecDrain": "BumpVerif.Model.RsVecM", "VecIntoIter": "BumpVerif.Model.RsVecM", "VecFilter": "BumpVerif.Model.RsVecM", "VecCopy": "BumpVerif.Model.RsVecM"}
 
 
 def run(repo, out_dir, write_if_changed):
